@@ -252,9 +252,11 @@ class RaggedArray:
             vlenincr, ilenincr = self._append(array, fdv, fdi, vlen)
             self._values._update_len(lenincrease=vlenincr)
             self._indices._update_len(lenincrease=ilenincr)
-            self._update_readmetxt()
-            self._update_arraydescr(len=len(self._indices),
-                                    size=self._values.size)
+        # the README lists subarray lengths: generate it after the memory
+        # maps of the pre-append arrays have been closed
+        self._update_readmetxt()
+        self._update_arraydescr(len=len(self._indices),
+                                size=self._values.size)
 
     def copy(self, path, dtype=None, accessmode='r', overwrite=False):
         """Copy darr to a different path, potentially changing its dtype.
